@@ -323,6 +323,10 @@ func parseMultipart(body io.Reader, boundary string, depth int, parentPartIdx *i
 		encoding := p.Header.Get("Content-Transfer-Encoding")
 		disposition := p.Header.Get("Content-Disposition")
 		filename := p.FileName()
+		if filename == "" {
+			// The file name may be given only as the name parameter of Content-Type
+			filename = params["name"]
+		}
 		contentID := p.Header.Get("Content-ID")
 
 		fmt.Printf("DEBUG parseMultipart: Found part: type='%s', disposition='%s', filename='%s', size=%d, depth=%d\n",
@@ -891,11 +895,17 @@ func writePartHeaders(buf *bytes.Buffer, part map[string]interface{}) {
 	contentType := part["content_type"].(string)
 
 	// Content-Type
+	fmt.Fprintf(buf, "Content-Type: %s", contentType)
 	if charset, ok := part["charset"].(string); ok && charset != "" {
-		fmt.Fprintf(buf, "Content-Type: %s; charset=%s\r\n", contentType, charset)
-	} else {
-		fmt.Fprintf(buf, "Content-Type: %s\r\n", contentType)
+		fmt.Fprintf(buf, "; charset=%s", charset)
 	}
+	// A file name that did not come with a Content-Disposition was the name parameter
+	if disp, _ := part["content_disposition"].(string); strings.TrimSpace(disp) == "" {
+		if filename, ok := part["filename"].(string); ok && strings.TrimSpace(filename) != "" {
+			fmt.Fprintf(buf, "; name=\"%s\"", filename)
+		}
+	}
+	buf.WriteString("\r\n")
 
 	// Content-Transfer-Encoding (default 7bit for text/*)
 	if encoding, ok := part["content_transfer_encoding"].(string); ok && strings.TrimSpace(encoding) != "" {
